@@ -1,1 +1,257 @@
-//! placeholder
+//! C03 / C15 / C18 / C20 (+ the emplace part of C14) -- in-place construction and assignment.
+//!
+//! C03 "Emplace then read back gives the same value; bytes validate; image is byte-exact"
+//! C15 "Emplacement into any buffer either succeeds correctly or reports the right error"
+//! C18 "A failed in-place assignment leaves a valid value behind"
+//! C20 "default_in_place produces the documented default state for every type"
+//!
+//! Every harness is a contract harness: assume the precondition, call the REAL public API, assert the postcondition
+//! against a reference written from the documented format (C layout rule; enum = tag then payload at the tag size
+//! rounded up to the enum's alignment; FlatVec = length at 0, elements at max(size_of L, align_of T); sizes rounded
+//! up to the type's alignment; portable scalars = fixed byte order, alignment 1).
+//! BOUNDED stand-ins: buffer length <= N (stated per harness); length, misalignment, prior contents ("garbage"),
+//! scalar values, variant and container fill are symbolic.
+use crate::corpus::*;
+use crate::reference::*;
+use crate::util::*;
+use flatty::error::{Error, ErrorKind};
+use flatty::portable::{be, le, Bool};
+use flatty::prelude::*;
+use flatty::{flat, flat_vec, Emplacer, FlatString, FlatVec, FlatWrap, FlexVec};
+
+// ------------------------------------------------------------------------------------------------------------------
+// helpers
+// ------------------------------------------------------------------------------------------------------------------
+
+fn is_kind<T>(r: &Result<T, Error>, k: ErrorKind) -> bool {
+    matches!(r, Err(e) if e.kind == k)
+}
+
+/// C15 three-way outcome: misaligned => BadAlign; too small for the type or the content => InsufficientSize; else Ok
+macro_rules! c15_outcome {
+    ($r:expr, $off:expr, $len:expr, $need:expr) => {
+        if $off != 0 {
+            assert!(is_kind(&$r, ErrorKind::BadAlign), "C15: misaligned buffer is not refused with BadAlign");
+        } else if $len < $need {
+            assert!(is_kind(&$r, ErrorKind::InsufficientSize), "C15: too small buffer is not refused with InsufficientSize");
+        } else {
+            assert!($r.is_ok(), "C15: aligned buffer that can hold the content is refused");
+        }
+    };
+}
+
+/// symbolic array of K bytes
+fn any_bytes<const K: usize>() -> [u8; K] {
+    let a: [u8; K] = kani::any();
+    a
+}
+
+/// copy of the first `len` bytes of `b` (rest 0) -- snapshot of a buffer before an operation
+fn snapshot<const K: usize>(b: &[u8]) -> [u8; K] {
+    let mut s = [0u8; K];
+    let mut i = 0;
+    while i < K {
+        if i < b.len() { s[i] = b[i]; }
+        i += 1;
+    }
+    s
+}
+
+fn bool_byte(x: bool) -> u8 { if x { 1 } else { 0 } }
+
+// ------------------------------------------------------------------------------------------------------------------
+// C15 + C03: sized types (the value is its own emplacer)
+// ------------------------------------------------------------------------------------------------------------------
+
+/// SBool (align 4, size 12): x@0 u16, flag@2, arr@3..5, y@8 u32.  N = 14: every length 0..=14, every offset 0..4.
+#[kani::proof]
+#[kani::unwind(16)]
+fn c15_sbool_new_in_place() {
+    const N: usize = 14;
+    let (len, off) = any_len_off(N, 4);
+    let b = sym_slice(len, 4, off, N);
+    let x: u16 = kani::any();
+    let y: u32 = kani::any();
+    let (f, a0, a1): (bool, bool, bool) = (kani::any(), kani::any(), kani::any());
+    let val = SBool { x, flag: Bool::from(f), arr: [Bool::from(a0), Bool::from(a1)], y };
+    let r = SBool::new_in_place(b, val.clone());
+    c15_outcome!(r, off, len, 12);
+    if let Ok(v) = r {
+        // C03: read back
+        assert!(*v == val);
+        assert!(v.x == x && v.y == y && bool::from(v.flag) == f && bool::from(v.arr[0]) == a0 && bool::from(v.arr[1]) == a1);
+        assert!(v.size() == 12);
+        // C03: byte image (native layout), non-padding bytes only
+        let img = v.as_bytes();
+        assert!(img.len() == 12);
+        assert!(img[0] == x.to_ne_bytes()[0] && img[1] == x.to_ne_bytes()[1]);
+        assert!(img[2] == bool_byte(f) && img[3] == bool_byte(a0) && img[4] == bool_byte(a1));
+        assert!(rd_u32(img, 8) == y);
+        // C03: bytes validate
+        assert!(SBool::validate(b).is_ok());
+    }
+}
+
+/// SStruct (align 8, size 24): a@0, b@2, c@4, d@8..24.  N = 26.
+#[kani::proof]
+#[kani::unwind(28)]
+fn c15_sstruct_new_in_place() {
+    const N: usize = 26;
+    let (len, off) = any_len_off(N, 8);
+    let b = sym_slice(len, 8, off, N);
+    let val = SStruct { a: kani::any(), b: kani::any(), c: kani::any(), d: [kani::any(), kani::any()] };
+    let r = SStruct::new_in_place(b, val.clone());
+    c15_outcome!(r, off, len, 24);
+    if let Ok(v) = r {
+        assert!(*v == val);
+        assert!(v.size() == 24);
+        let img = v.as_bytes();
+        assert!(img.len() == 24);
+        assert!(img[0] == val.a);
+        assert!(rd_u16(img, 2) == val.b);
+        assert!(rd_u32(img, 4) == val.c);
+        let d0 = val.d[0].to_ne_bytes();
+        let d1 = val.d[1].to_ne_bytes();
+        let mut i = 0;
+        while i < 8 {
+            assert!(img[8 + i] == d0[i] && img[16 + i] == d1[i]);
+            i += 1;
+        }
+        assert!(SStruct::validate(b).is_ok());
+    }
+}
+
+/// SEnum (tag u8 @0, payload @4, align 4, size 8), EVERY variant.  N = 10.
+#[kani::proof]
+#[kani::unwind(12)]
+fn c15_senum_new_in_place() {
+    const N: usize = 10;
+    let (len, off) = any_len_off(N, 4);
+    let b = sym_slice(len, 4, off, N);
+    let which: u8 = kani::any();
+    kani::assume(which < 4);
+    let (p16, p8, p32): (u16, u8, u32) = (kani::any(), kani::any(), kani::any());
+    let val = match which {
+        0 => SEnum::A,
+        1 => SEnum::B(p16, p8),
+        2 => SEnum::C { a: p8, b: p16 },
+        _ => SEnum::D(p32),
+    };
+    let r = SEnum::new_in_place(b, val.clone());
+    c15_outcome!(r, off, len, 8);
+    if let Ok(v) = r {
+        assert!(*v == val);
+        assert!(v.size() == 8);
+        let img = v.as_bytes();
+        assert!(img.len() == 8);
+        assert!(img[0] == which, "C03: tag byte is not the variant index");
+        match which {
+            0 => {}
+            1 => assert!(rd_u16(img, 4) == p16 && img[6] == p8),
+            2 => assert!(img[4] == p8 && rd_u16(img, 6) == p16),
+            _ => assert!(rd_u32(img, 4) == p32),
+        }
+        assert!(SEnum::validate(b).is_ok());
+    }
+}
+
+/// CEnum (one byte).  N = 3.
+#[kani::proof]
+#[kani::unwind(5)]
+fn c15_cenum_new_in_place() {
+    const N: usize = 3;
+    let (len, off) = any_len_off(N, 1);
+    let b = sym_slice(len, 1, off, N);
+    let which: u8 = kani::any();
+    kani::assume(which < 3);
+    let val = match which { 0 => CEnum::A, 1 => CEnum::B, _ => CEnum::C };
+    let r = CEnum::new_in_place(b, val);
+    c15_outcome!(r, off, len, 1);
+    if let Ok(v) = r {
+        assert!(*v == val);
+        assert!(v.size() == 1);
+        assert!(v.as_bytes().len() == 1 && v.as_bytes()[0] == which);
+        assert!(CEnum::validate(b).is_ok());
+    }
+}
+
+/// PStruct (portable, align 1, size 8): a@0, b@1..3 LITTLE endian, c@3..7 BIG endian, f@7.  N = 10.
+#[kani::proof]
+#[kani::unwind(12)]
+fn c15_pstruct_new_in_place() {
+    const N: usize = 10;
+    let (len, off) = any_len_off(N, 1);
+    let b = sym_slice(len, 1, off, N);
+    let (a, x, y, f): (u8, u16, u32, bool) = (kani::any(), kani::any(), kani::any(), kani::any());
+    let r = PStruct::new_in_place(b, PStruct { a, b: le::U16::from(x), c: be::U32::from(y), f: Bool::from(f) });
+    c15_outcome!(r, off, len, 8);
+    if let Ok(v) = r {
+        assert!(v.a == a && u16::from(v.b) == x && u32::from(v.c) == y && bool::from(v.f) == f);
+        assert!(v.size() == 8);
+        let img = v.as_bytes();
+        assert!(img.len() == 8);
+        assert!(img[0] == a);
+        assert!(img[1] == x.to_le_bytes()[0] && img[2] == x.to_le_bytes()[1], "C03: le::U16 is not stored little-endian");
+        let yb = y.to_be_bytes();
+        assert!(img[3] == yb[0] && img[4] == yb[1] && img[5] == yb[2] && img[6] == yb[3], "C03: be::U32 is not stored big-endian");
+        assert!(img[7] == bool_byte(f));
+        assert!(PStruct::validate(b).is_ok());
+    }
+}
+
+// ------------------------------------------------------------------------------------------------------------------
+// C15 + C03: unsized struct, generated *Init emplacer with a nested flat_vec! (FromArray) emplacer
+// ------------------------------------------------------------------------------------------------------------------
+
+/// dispatch on a symbolic fill `k` to the array-typed emplacer flat_vec![e0, .., e(k-1)]
+macro_rules! with_flat_vec {
+    ($k:expr, $e:expr, |$fv:ident| $body:expr) => {
+        match $k {
+            0 => { let $fv = flat_vec![]; $body }
+            1 => { let $fv = flat_vec![$e[0]]; $body }
+            2 => { let $fv = flat_vec![$e[0], $e[1]]; $body }
+            3 => { let $fv = flat_vec![$e[0], $e[1], $e[2]]; $body }
+            4 => { let $fv = flat_vec![$e[0], $e[1], $e[2], $e[3]]; $body }
+            5 => { let $fv = flat_vec![$e[0], $e[1], $e[2], $e[3], $e[4]]; $body }
+            6 => { let $fv = flat_vec![$e[0], $e[1], $e[2], $e[3], $e[4], $e[5]]; $body }
+            _ => { let $fv = flat_vec![$e[0], $e[1], $e[2], $e[3], $e[4], $e[5], $e[6]]; $body }
+        }
+    };
+}
+const MAXK: usize = 7;
+
+/// UStruct (align 2): a@0, b@2..4, c = FlatVec<u8,u16> @4: length @4..6, elements @6+i; size = ceil(6 + k, 2).
+/// N = 13, fill k in 0..=7 (from empty to more than fits).
+#[kani::proof]
+#[kani::unwind(15)]
+fn c15_ustruct_new_in_place() {
+    const N: usize = 13;
+    let (len, off) = any_len_off(N, 2);
+    let b = sym_slice(len, 2, off, N);
+    let (a, bb): (u8, u16) = (kani::any(), kani::any());
+    let e: [u8; MAXK] = any_bytes();
+    let k: usize = kani::any();
+    kani::assume(k <= MAXK);
+    let r = with_flat_vec!(k, e, |fv| UStruct::new_in_place(b, UStructInit { a, b: bb, c: fv }));
+    let need = ceil_to(6 + k, 2);
+    c15_outcome!(r, off, len, need);
+    if let Ok(v) = r {
+        assert!(v.a == a && v.b == bb);
+        assert!(v.c.len() == k, "C03: vector length differs from the emplaced array");
+        assert!(v.c.capacity() == floor_to(len, 2) - 6);
+        assert!(v.size() == need, "C03/C05: size() is not the documented size of the content");
+        let s = v.c.as_slice();
+        let img = v.as_bytes();
+        assert!(img.len() == floor_to(len, 2));
+        assert!(img[0] == a && rd_u16(img, 2) == bb && rd_u16(img, 4) as usize == k);
+        let mut i = 0;
+        while i < MAXK {
+            if i < k {
+                assert!(s[i] == e[i], "C03: element read back differs");
+                assert!(img[6 + i] == e[i], "C03: element byte image differs");
+            }
+            i += 1;
+        }
+        assert!(UStruct::validate(b).is_ok());
+    }
+}
